@@ -40,13 +40,13 @@ func init() {
 // Wire is a simulated link between an SSH client and server with the
 // independent wire monitor attached to both directions.
 type Wire struct {
-	C, S       *simnet.Conn // client end, server end
-	C2S, S2C   *simnet.Dir
-	Mon        *wiremon.Monitor
-	ClientKex  []ssh.VerifKexInfo
-	ServerKex  []ssh.VerifKexInfo
-	OnKexInit  func(dir int) // called when a KEXINIT is written in a direction
-	OnNewKeys  func(dir int)
+	C, S      *simnet.Conn // client end, server end
+	C2S, S2C  *simnet.Dir
+	Mon       *wiremon.Monitor
+	ClientKex []ssh.VerifKexInfo
+	ServerKex []ssh.VerifKexInfo
+	OnKexInit func(dir int) // called when a KEXINIT is written in a direction
+	OnNewKeys func(dir int)
 }
 
 // NewWire creates the link; violations of wire invariants are reported under
